@@ -11,6 +11,7 @@ import (
 	"io"
 	"net"
 	"net/url"
+	"os"
 	"runtime"
 	"sort"
 	"strings"
@@ -214,11 +215,15 @@ func (w *usWorld) markSlow() {
 }
 
 func (w *usWorld) timeout() time.Duration {
-	if w.slow {
-		return 100 * time.Millisecond
-	}
-	if usTimeouts >= 4 {
-		return 300 * time.Millisecond
+	switch {
+	case w.slow && usTimeouts >= 12:
+		return 10 * time.Millisecond
+	case w.slow:
+		return 40 * time.Millisecond
+	case usTimeouts >= 12:
+		return 40 * time.Millisecond
+	case usTimeouts >= 4:
+		return 150 * time.Millisecond
 	}
 	return usBound
 }
@@ -339,7 +344,18 @@ func (w *usWorld) expRtxCn() (int, int) {
 }
 
 // settle waits for the expected events and goroutine counts, then renders the observation.
+var usMaxSettle time.Duration
+
 func (w *usWorld) settle(extra string) string {
+	t0 := time.Now()
+	defer func() {
+		if d := time.Since(t0); d > usMaxSettle {
+			usMaxSettle = d
+			if os.Getenv("VERIF_US_STATS") == "1" {
+				fmt.Fprintf(os.Stderr, "udpshared: longest settle so far %v\n", d)
+			}
+		}
+	}()
 	dl := time.Now().Add(w.timeout())
 	for len(w.expD) > 0 || len(w.expX) > 0 {
 		rem := time.Until(dl)
